@@ -9,14 +9,14 @@ ID = 'C13'
 ENGINE = 'detsched'
 TECHNIQUE = 'runtime monitoring: random start/stop/clear/subscribe/publish/active-object histories against a small executable model of the fabric, run under a deterministic cooperative scheduler; thread-census invariant at every Thread.start and operation boundary; exact deadlock detection'
 RULE = ('random operation sequences (3-15) over {fabric.start, fabric.stop, fabric.clear, subscribe, publish, start an active object, post to an '
-        'active object, PUB_STOP (1-3 publications immediately followed by stop(), so that stop() arrives while deliveries are in flight), FAULT (a lifo subscriber whose append raises, which kills the lifo delivery thread only)}, including repeated start / stop and clear while running, each operation followed by quiescence (delivery threads and '
+        'active object, START_FAULT (Thread.start of the lifo delivery thread raises once inside start(): start() fails half way, a later start() must complete the pair without a second fifo thread), PUB_STOP (1-3 publications immediately followed by stop(), so that stop() arrives while deliveries are in flight), FAULT (a lifo subscriber whose append raises, which kills the lifo delivery thread only)}, including repeated start / stop and clear while running, each operation followed by quiescence (delivery threads and '
         'objects interleaved by detsched). Invariants: at every Thread.start and after every operation at most one live fifo and one live lifo '
         'delivery thread; is_alive() == both live; after stop() none live; a publication made while running reaches exactly its current '
         'subscribers once; after stop(); start() a fresh subscription + publication is delivered; an active object that wakes while the '
         'fabric is stopped halts without dispatching; no operation deadlocks. distinct_nontrivial = distinct operation-kind sequences')
 CASES = {'quick': 2000, 'thorough': 100000}
 BUDGET = {'quick': 150, 'thorough': 300}
-REQUIRE = {'sequences': 800, 'ops': 8000, 'repeated_start': 300, 'restart_after_stop': 300, 'clear_while_running': 200, 'object_wakes_while_stopped': 60, 'start_after_partial_failure': 50, 'stop_with_publications_in_flight': 300}
+REQUIRE = {'sequences': 800, 'ops': 8000, 'repeated_start': 300, 'restart_after_stop': 300, 'clear_while_running': 200, 'object_wakes_while_stopped': 60, 'start_after_partial_failure': 50, 'stop_with_publications_in_flight': 300, 'start_failed_half_way': 60}
 ASSUME = ['operations are issued by one thread, each followed by quiescence; publications made while the fabric is stopped are not constrained']
 ANNOUNCE_CASES = True
 ROLES = ('thread_runner_fifo', 'thread_runner_lifo')
@@ -43,7 +43,7 @@ def census(s):
 def run_case(ctx, n):
   rng = ctx.rng('case', n)
   nops = rng.randint(3, 15)
-  kinds = ['start', 'start', 'stop', 'stop', 'clear', 'sub', 'sub', 'pub', 'pub', 'ao_start', 'ao_post', 'ao_post', 'fault', 'pub_stop', 'pub_stop']
+  kinds = ['start', 'start', 'stop', 'stop', 'clear', 'sub', 'sub', 'pub', 'pub', 'ao_start', 'ao_post', 'ao_post', 'fault', 'pub_stop', 'pub_stop', 'start_fault']
   ops = [rng.choice(kinds) for _ in range(nops)]
   if rng.random() < 0.5:
     ops = ['start'] + ops
@@ -70,7 +70,27 @@ def run_case(ctx, n):
     try:
       for k, op in enumerate(ops):
         detail = None
-        if op == 'start':
+        if op == 'start_fault':
+          # FAULT inside start(): the operating system refuses to start the lifo delivery thread (Thread.start raises once);
+          # start() fails half way - the fifo thread, if it had to be started, runs - and a later start() must complete the pair
+          s.fail_thread_start = 'thread_runner_lifo'
+          before = s.thread_start_failures
+          try:
+            fabric.start()
+          except (RuntimeError, AssertionError):
+            pass
+          s.fail_thread_start = None
+          if s.thread_start_failures > before:
+            ctx.count('start_failed_half_way')
+            model['running'] = 'degraded'
+            model['ever_started'] = True
+            model['fault_pending'] = False if not model.get('faulty_sub') else model.get('fault_pending')
+            for a in aos:
+              if a['state'] == 'doomed':
+                a['state'] = 'alive'
+          elif not model['running']:
+            model['running'] = True
+        elif op == 'start':
           if model['running']:
             ctx.count('repeated_start')
           if model['stopped_once'] and not model['running']:
